@@ -114,6 +114,15 @@ func (c01) Gen(rng *rand.Rand, tier string, idx int) Case {
 	size := sizes[rng.Intn(len(sizes))]
 	oooChoices := []int64{0, size / 2, size, 2*size + 1, 5 * size}
 	ooo := oooChoices[rng.Intn(len(oooChoices))]
+	if idx%12 == 11 {
+		// SQL-level stage: whole pipeline through the public API
+		szs := []int64{1000, 500, 60000}
+		sz := szs[rng.Intn(len(szs))]
+		o := []int64{0, sz / 2, sz, 2*sz + 1}[rng.Intn(4)]
+		c.Cfg = [][]string{{"kind", "sqltumbling"}, {"size", itoa(sz)}, {"ooo", itoa(o)}, {"late", "0"}, {"now", "0"}}
+		genSQLWindow(rng, &c, sz, o)
+		return c
+	}
 	if rng.Intn(6) == 0 {
 		// processing time: explicit timestamps through TsProp, Trigger() as the timer
 		c.Cfg = [][]string{{"kind", "tumbling"}, {"mode", "pt"}, {"size", itoa(size)}, {"ooo", "0"}, {"late", "0"}, {"now", "0"}}
@@ -145,4 +154,9 @@ func (c01) Gen(rng *rand.Rand, tier string, idx int) Case {
 	return c
 }
 
-func (c01) Exec(c Case) [][][]string { return execWindow(c) }
+func (c01) Exec(c Case) [][][]string {
+	if isSQLWindowCase(c) {
+		return execSQLWindow(c)
+	}
+	return execWindow(c)
+}
